@@ -589,6 +589,8 @@ theorem storeStep_inv (junk : UInt8) (body : Bytes) (szx : Nat) (K : List Nat) (
         exact ⟨b, rfl, by omega, by intro b' hb' i hi; cases hb'; rfl⟩
       · rw [if_neg hc]
         have hgrow : tl' = blockEnd body szx k := by omega
+        have hnl : ¬ (k * chunkSize szx + (slice body szx k).length < b.length) := by omega
+        simp only [if_neg hnl]
         refine ⟨resizeBin junk b (k * chunkSize szx + (slice body szx k).length), rfl, ?_, ?_⟩
         · rw [resizeBin_length]; omega
         · intro b' hb' i hi
